@@ -390,6 +390,54 @@ def check_history(env, acc):
                 acc.nontriv("emhist", hist)
 
 
+def check_equal_configurations(env, acc):
+    """Slots of one error model configured alike: from separate distribution objects with the same parameters, or from
+    one shared object.  Same seed -> same circuit, different slots still draw independently seeded streams, and a model
+    that was used before maps like a freshly built one."""
+    makers = {
+        "tophat": lambda: dists.TopHat(0.4, 0.6),
+        "gauss": lambda: dists.Gaussian(0.5, 0.05, min_value=0, max_value=1),
+        "tophat_small": lambda: dists.TopHat(0.0, 0.1),
+        "const": lambda: dists.Constant(0.25),
+    }
+    attr = ("bs_reflectivity", "loss", "phase_offset")
+    for un in (3, 4):
+        c = lw.Unitary(kernel.haar(un, env.seed + 71 + un))
+        for name, mk in makers.items():
+            for slots in ((0, 1), (1, 2), (0, 2), (0, 1, 2)):
+                for shared in (False, True):
+                    case = {"scenario": "equal_configurations", "dist": name, "slots": slots, "shared_object": shared,
+                            "n": un, "seed": env.seed}
+
+                    def build():
+                        em = itf.ErrorModel()
+                        one = mk()
+                        for k in slots:
+                            setattr(em, attr[k], one if shared else mk())
+                        return itf.Reck(em)
+
+                    r = build()
+                    got = {}
+                    try:
+                        for sd in (3, 5, 3, 0, 0):
+                            acc.tick("executions"); acc.tick("transitions")
+                            sp = spec_struct(r.map(c, seed=sd)._get_circuit_spec())
+                            if sd in got and got[sd] != sp:
+                                acc.violation("same_seed_different_circuit", {**case, "map_seed": sd}, None)
+                            got[sd] = sp
+                        for sd in (3, 0):
+                            acc.tick("executions"); acc.tick("transitions")
+                            if spec_struct(build().map(c, seed=sd)._get_circuit_spec()) != got[sd]:
+                                acc.violation("mapping_depends_on_history", {**case, "map_seed": sd}, None)
+                    except Exception as e:  # noqa: BLE001
+                        acc.violation("mapping_fails", case, {"error": repr(e)})
+                        continue
+                    if name != "const" and got[3] == got[5]:
+                        acc.violation("different_seeds_identical_circuit", case, None)
+                    acc.state("eqcfg", name, slots, shared, un)
+                    acc.nontriv("eqcfg", name, slots, shared, un)
+
+
 def check_circuit_history(env, acc):
     """One long-lived Reck object mapping a circuit that is changed in place between calls (parameter updates,
     appended components, another circuit mapped in between): every mapping reproduces the circuit as it is now."""
@@ -531,6 +579,7 @@ def run(tier, seed):
     check_resampling(env, e3)
     check_history(env, e3)
     check_circuit_history(env, e3)
+    check_equal_configurations(env, e3)
     check_cross_process(env, e3)
     acc.merge(e3)
     meta = {
@@ -559,6 +608,8 @@ def replay(w, acc):
     if "scenario" in case:
         if case["scenario"] == "cross_process":
             check_cross_process(env, acc)
+        elif case["scenario"] == "equal_configurations":
+            check_equal_configurations(env, acc)
         elif case["scenario"] == "history_circuit":
             check_circuit_history(env, acc)
         elif str(case["scenario"]).startswith("history"):
